@@ -23,6 +23,7 @@ func runC20(c *Ctx) {
 		c.analysedFn(p.FnName(fn))
 	}
 	c.checkGuardRows("O-1 guarded-by table", guardTable, scope)
+	c.checkGlobalRows("O-1 guarded-by table", globalGuardTable)
 	c.checkLockPairing("O-2 lock pairing", scope)
 	c.checkLockOrder("O-2b lock order")
 	c.checkAtomicDiscipline("O-3 atomic discipline", scope)
